@@ -94,15 +94,9 @@ Definition with_layout (c : pcfg) (pretty : bool) (margin : N) : pcfg :=
   Pcfg (p_base c) (p_radix c) (p_case c) pretty margin (p_readably c) (p_escape c) (p_array c).
 Lemma sym_ok_inl c c' inl s : p_case c = p_case c' -> sym_ok c true s = true -> sym_ok c' inl s = true.
 Proof.
-  unfold sym_ok. intros _ H. apply andb_true_iff in H as [H1 H2]. rewrite H1. cbn [andb].
-  destruct s as [|b r]; [discriminate H2|].
-  assert (Hm : forall i, match b :: r with [] => negb i | 58 :: _ => negb (existsb need_pipe (b :: r)) && bare_ok (b :: r)
-               | _ => if existsb need_pipe (b :: r) then forallb pipe_ok_byte (b :: r) && negb i else bare_ok (b :: r) end =
-               (if (b =? 58) then negb (existsb need_pipe (b :: r)) && bare_ok (b :: r)
-                else if existsb need_pipe (b :: r) then forallb pipe_ok_byte (b :: r) && negb i else bare_ok (b :: r))).
-  { intros i. destruct (N.eqb_spec b 58) as [->|Hb]; [reflexivity|]. destruct b as [|p]; [reflexivity|].
-    repeat (destruct p as [p|p|]; try reflexivity). contradiction. }
-  rewrite Hm in *. destruct (b =? 58); [exact H2|]. destruct (existsb need_pipe (b :: r)); [|exact H2].
+  intros _. destruct s as [|b r]; [unfold sym_ok; intros H; apply andb_true_iff in H as [_ H]; discriminate H|].
+  rewrite !sym_ok_cons. intros H. apply andb_true_iff in H as [H1 H2]. rewrite H1. cbn [andb].
+  destruct (b =? 58); [exact H2|]. destruct (need_pipes (b :: r)); [|exact H2].
   apply andb_true_iff in H2 as [_ H2]. discriminate H2.
 Qed.
 (* the guard of a pretty configuration implies the guard of the same configuration printed flat, and of
@@ -162,8 +156,6 @@ Definition w_array_radix := (Pcfg 10 true CDown false 80 true true true, OArr 2 
 Definition w_pretty_bars := (cfg_pretty, OList [OSym [97; 32; 98]; OSym [99]]).
 (* a? : needPipeMap does not ask for bars, the reader rejects '?' *)
 Definition w_symbol_question := (cfg_flat, OSym [97; 63]).
-(* |123| is printed 123 *)
-Definition w_symbol_numeric := (cfg_flat, OSym [49; 50; 51]).
 (* é (UTF-8 c3 a9): no bars, and the reader rejects bytes above 0x7f outside bars *)
 Definition w_symbol_non_ascii := (Pcfg 10 false CNone false 80 true true true, OSym [195; 169]).
 (* a|b : printed |a|b| *)
@@ -180,7 +172,7 @@ Definition w_keyword_space := (cfg_flat, OSym [58; 97; 32; 98]).
 
 Definition refutation_witnesses : list (pcfg * obj) :=
   [w_string_quote; w_single_float; w_integral_double; w_ratio_radix; w_array_radix; w_pretty_bars; w_symbol_question;
-   w_symbol_numeric; w_symbol_non_ascii; w_symbol_bar; w_symbol_nil; w_char_paren; w_char_nul; w_symbol_dot; w_keyword_space].
+   w_symbol_non_ascii; w_symbol_bar; w_symbol_nil; w_char_paren; w_char_nul; w_symbol_dot; w_keyword_space].
 Theorem outside_guard_refuted : forallb (fun w => refuted (fst w) (snd w)) refutation_witnesses = true.
 Proof. vm_compute. reflexivity. Qed.
 (* what the model makes of some of them *)
